@@ -25,6 +25,14 @@ CHECKS = {
              "in the preview/report region reaches the return, and that report files are the documented constants. Covers every pair, spelling and outcome because the rule is about paths.",
         ref="DESIGN 3/C17",
         note=TB + "; the I/O primitive table (sa/effects.py) and the reviewed-import list are complete; 'preview never raises' is not decided"),
+    "C18": dict(
+        technique="static path and loop-carried-dependence rules (ast CFG, reaching definitions tagged across the back edge, use-kind census, guard literals) over cli/main.py",
+        category="other",
+        text="Proves structurally that the per-file loop body is one catch-all try that cannot leave the loop, that no definition of one iteration reaches a use "
+             "in a later one, that the only outside object mutated is the write-only counters table, that per-file tables are allocated in the body, and that the "
+             "discovery filter and the output-name infix are the same literal. Isolation for every directory tree and fault placement follows from these shapes; the tests run one file.",
+        ref="DESIGN 3/C18",
+        note=TB + "; byte-identity of outputs additionally relies on C15 (purity) and is not compared at run time"),
 }
 
 NOT_APPLICABLE = {
